@@ -70,7 +70,9 @@ func c08Septets(c *fw.Case, s []byte, class string) {
 	text, decodable := tab.Decode(s)
 	var viaDecoder []byte
 	var derr error
-	if !try1(c, "GSM7(packed).Decoder", packed, func() { viaDecoder, _, derr = transform.Bytes(g7.GSM7(true).NewDecoder(), append([]byte(nil), packed...)) }) {
+	if !try1(c, "GSM7(packed).Decoder", packed, func() {
+		viaDecoder, _, derr = transform.Bytes(g7.GSM7(true).NewDecoder(), append([]byte(nil), packed...))
+	}) {
 		return
 	}
 	var viaCodec []byte
